@@ -1,14 +1,87 @@
 (* C11 - Canonical form is a true normal form. *)
 From Coq Require Import List Bool Permutation.
-From Y0 Require Import Base.ListSet Dsl.Syntax Dsl.Build Dsl.Canon Proofs.SortP Proofs.DslP.
+From Y0 Require Import Base.ListSet Dsl.Syntax Dsl.Text Dsl.Print Dsl.Build Dsl.Canon Proofs.SortP Proofs.DslP Proofs.OrderP Proofs.CanonNfP Proofs.CanonNf3P Proofs.CanonNf4P Proofs.CanonPresP.
 Import ListNotations.
 
-(* Full statement (kept visible). Proved below: the sorting core (idempotence; independence of the presentation
-   order when no two factors tie) and, relative to the order properties of the expression key, Product.safe.
-   The whole-expression statement is evaluated on the model inside Coq for every generated case (Corr/Dsl.v CCanon). *)
-Definition C11_statement : Prop :=
-  forall o e, is_err (canonicalize false o e) = false ->
-    canonicalize false o (canonicalize false o e) = canonicalize false o e.
+(* Clause 1 of the property - canonicalising a canonical form returns it unchanged - for EVERY expression and every
+   ordering the caller can give (canonicalize() passes the ordering through _upgrade_ordering, which sorts it by name;
+   [canonicalize_top] is that entry point), and for the default ordering (None: the second call derives its ordering from the
+   canonical form itself, which may mention fewer variables). An [EErr] value is an exception in y0, not a result.
+   Proved through a normal form: Proofs/CanonNfP.v (every expression of shape NF is a fixed point), CanonNf2P.v / CanonNf3P.v
+   (every non-error result of Product.safe, __mul__, __truediv__, Sum.safe(simplify=True) on canonical operands, and of the
+   canonicalizer, has shape NF), OrderP.v (the three sort keys are strict orders), CanonNf4P.v (default ordering).
+   The proof attempt found the defect repaired by /repo 029f0ea (a quotient of fractions with equal sides after multiplying across). *)
+Theorem C11_canonicalize_is_idempotent e ordering :
+  is_err (canonicalize_top false e (Some ordering)) = false ->
+  canonicalize_top false (canonicalize_top false e (Some ordering)) (Some ordering) = canonicalize_top false e (Some ordering).
+Proof. exact (canonicalize_top_idempotent e ordering). Qed.
+
+Theorem C11_canonicalize_is_idempotent_default_ordering e :
+  is_err (canonicalize_top false e None) = false ->
+  canonicalize_top false (canonicalize_top false e None) None = canonicalize_top false e None.
+Proof. exact (canonicalize_top_idempotent_default e). Qed.
+
+(* not vacuous, and the repaired case: the witness of the defect is canonicalised to One, a fixed point *)
+Definition C11_pA := EProb None [V 0] []. Definition C11_pB := EProb None [V 1] []. Definition C11_pC := EProb None [V 2] [].
+Definition C11_witness := EFrac (EFrac (EProd [C11_pA; C11_pB]) C11_pA) (EFrac (EProd [C11_pB; C11_pC]) C11_pC).
+Example C11_idempotent_not_vacuous :
+  (canonicalize_top false C11_witness None = EOne) /\
+  (canonicalize_top true C11_witness None = EFrac (EProd [C11_pA; C11_pB; C11_pC]) (EProd [C11_pA; C11_pB; C11_pC])) /\
+  (canonicalize_top true (canonicalize_top true C11_witness None) None = EOne).
+Proof. vm_compute. auto. Qed.
+
+(* the canonicalizer before the repair 029f0ea: not idempotent on a quotient of fractions *)
+Theorem C11_old_quotient_of_fractions_not_idempotent_refuted :
+  exists e, is_err (canonicalize_top true e None) = false /\
+            canonicalize_top true (canonicalize_top true e None) None <> canonicalize_top true e None.
+Proof.
+  exists (EFrac (EFrac (EProd [EProb None [V 0] []; EProb None [V 1] []]) (EProb None [V 0] []))
+                (EFrac (EProd [EProb None [V 1] []; EProb None [V 2] []]) (EProb None [V 2] []))).
+  vm_compute. split; [reflexivity|discriminate].
+Qed.
+
+(* the three sort keys are strict orders (Python's tuple comparison of nested keys included), so sorting by them is idempotent *)
+Theorem C11_factor_order_is_a_strict_order :
+  (forall a, expr_lt a a = false) /\ (forall a b c, expr_lt a b = true -> expr_lt b c = true -> expr_lt a c = true).
+Proof. exact (conj expr_lt_irrefl expr_lt_trans). Qed.
+
+(* two factors tie in Product.safe's key only if they print alike in both syntaxes *)
+Theorem C11_factor_ties_print_alike a b : expr_lt a b = false -> expr_lt b a = false -> to_y0 a = to_y0 b /\ to_text a = to_text b.
+Proof. exact (expr_lt_tie a b). Qed.
+
+(* Clause 2 - expressions that differ only in presentation canonicalise to identical objects. [pres o e e'] (Proofs/CanonPresP.v)
+   relates e to every e' obtained by permuting the variables on either side of a bar, permuting the factors of products and
+   re-nesting products, at any depth; it carries the side conditions that the sort keys do not tie on DISTINCT members (two
+   variables of one term; two canonical factors of one product). PARTIAL in exactly that respect: ties between distinct objects
+   are not excluded by a theorem (C11_factor_ties_print_alike: they must print alike); the side condition on variables is
+   discharged for terms that mention each variable name once (C11_no_variable_ties_when_names_are_distinct). *)
+Theorem C11_presentation_invariance_partial o e e' :
+  pres o e e' -> is_err (canonicalize false o e) = false -> canonicalize false o e' = canonicalize false o e.
+Proof. exact (presentation_invariance o e e'). Qed.
+
+Theorem C11_no_variable_ties_when_names_are_distinct o l :
+  NoDup (map vn l) -> forallb (has_level o) l = true -> vtie_free o l.
+Proof. exact (vtie_free_distinct o l). Qed.
+
+(* not vacuous: P(B | A) * (P(C) * P(A, D))  and  (P(D, A) * P(C)) * P(B | A) *)
+Example C11_presentation_invariance_not_vacuous :
+  let o := [V 0; V 1; V 2; V 3] in
+  let e := EProd [EProb None [V 1] [V 0]; EProd [EProb None [V 2] []; EProb None [V 0; V 3] []]] in
+  let e' := EProd [EProd [EProb None [V 3; V 0] []; EProb None [V 2] []]; EProb None [V 1] [V 0]] in
+  pres o e e' /\ is_err (canonicalize false o e) = false /\ e <> e'.
+Proof.
+  cbv zeta. split; [|split; [vm_compute; reflexivity|discriminate]].
+  apply (pres_prod _ _ _ [EProb None [V 1] [V 0]; EProb None [V 2] []; EProb None [V 3; V 0] []]).
+  - cbn [flatten app]. apply Forall2_cons; [apply pres_refl|]. apply Forall2_cons; [apply pres_refl|]. apply Forall2_cons; [|apply Forall2_nil].
+    apply pres_prob; [apply perm_swap|apply perm_nil| |intros a b []].
+    apply vtie_free_distinct; [repeat constructor; cbn; intuition discriminate|reflexivity].
+  - cbn [flatten app].
+    apply (Permutation_trans (l' := [EProb None [V 2] []; EProb None [V 3; V 0] []; EProb None [V 1] [V 0]])).
+    + apply (Permutation_cons_append [EProb None [V 2] []; EProb None [V 3; V 0] []]).
+    + apply perm_swap.
+  - intros a b Ha Hb. vm_compute in Ha, Hb.
+    destruct Ha as [<-|[<-|[<-|[]]]]; destruct Hb as [<-|[<-|[<-|[]]]]; vm_compute; intros; try reflexivity; discriminate.
+Qed.
 
 Theorem C11_sorting_is_idempotent {A} (lt : A -> A -> bool) :
   (forall a, lt a a = false) -> (forall a b c, lt a b = true -> lt b c = true -> lt a c = true) ->
@@ -45,6 +118,13 @@ Theorem C11_old_same_name_variables_presentation_dependent_refuted :
   canonicalize false [y] (EProb None [y; ystar] []) = canonicalize false [y] (EProb None [ystar; y] []).
 Proof. vm_compute. split; [discriminate|reflexivity]. Qed.
 
+Print Assumptions C11_canonicalize_is_idempotent.
+Print Assumptions C11_presentation_invariance_partial.
+Print Assumptions C11_no_variable_ties_when_names_are_distinct.
+Print Assumptions C11_canonicalize_is_idempotent_default_ordering.
+Print Assumptions C11_old_quotient_of_fractions_not_idempotent_refuted.
+Print Assumptions C11_factor_order_is_a_strict_order.
+Print Assumptions C11_factor_ties_print_alike.
 Print Assumptions C11_old_same_name_variables_presentation_dependent_refuted.
 Print Assumptions C11_sorting_is_idempotent.
 Print Assumptions C11_sorting_ignores_presentation_order.
